@@ -174,6 +174,9 @@ def apply_op(op, s, v, ps, real_t, D, num_threads=False):
             vector_field=v[0], diffusion_flux=s[1], nu_dt_by_dx2=p
         )
     elif n in ("filter", "filter_vec"):
+        # the kernel is generated once and used many times (as the simulators do): whatever generation does to the
+        # buffers must not be relied upon at call time, so the pre-state is written into the buffers AFTER generation
+        pre1, pre2 = s[1].copy(), s[2].copy()
         k = G(
             "gen_laplacian_filter_kernel_3d",
             filter_order=op["n"],
@@ -184,6 +187,8 @@ def apply_op(op, s, v, ps, real_t, D, num_threads=False):
             filter_flux_buffer_boundary_width=op["w"],
             _nocache=True,
         )
+        s[1][...] = pre1
+        s[2][...] = pre2
         if n == "filter":
             k(scalar_field=s[0])
         else:
